@@ -136,7 +136,11 @@ pub fn gen_scenario(r: &mut Rng, c: &GenCfg) -> Scenario {
         let roll = r.below(100);
         if roll < 50 {
             // queries: mostly roots (late nodes), sometimes inner nodes, sometimes repeated
-            let n = if r.chance(2, 3) { execs[execs.len() - 1 - r.below((execs.len() as u64).min(3)) as usize] } else { *r.pick(&avail) };
+            // mostly roots; sometimes any node; sometimes a firewall / projection asked for directly (its update then
+            // happens outside any transitive-firewall repair)
+            let inner: Vec<Node> = execs.iter().copied().filter(|n| matches!(n.kind, Kind::Firewall | Kind::Projection)).collect();
+            let n = if !inner.is_empty() && r.chance(1, 5) { *r.pick(&inner) }
+                    else if r.chance(2, 3) { execs[execs.len() - 1 - r.below((execs.len() as u64).min(3)) as usize] } else { *r.pick(&avail) };
             ops.push(Op::Query(n));
             if r.chance(1, 5) { ops.push(Op::Query(n)); }
         } else if roll < 85 {
